@@ -27,6 +27,8 @@ struct Recorder : Potassco::AbstractProgram {
 	void theoryAtom(Potassco::Id_t a, Potassco::Id_t t, const Potassco::IdSpan& e) override { o.add(17); o.add(a); o.add(t); list(e); }
 	void theoryAtom(Potassco::Id_t a, Potassco::Id_t t, const Potassco::IdSpan& e, Potassco::Id_t op, Potassco::Id_t rhs) override { o.add(18); o.add(a); o.add(t); list(e); o.add(op); o.add(rhs); }
 };
+// Strings are handed over as spans that are NOT followed by a NUL (three other bytes follow in the same buffer): a StringSpan is pointer +
+// length, and a callee that treats it as a C string reads bytes that are not part of the name (seeded C01-r10, C05-r8).
 // Decodes one call from the case and invokes it on out. Returns false if no (valid) call follows.
 inline bool playCall(Case& c, Potassco::AbstractProgram& out) {
 	using namespace Potassco;
@@ -45,13 +47,13 @@ inline bool playCall(Case& c, Potassco::AbstractProgram& out) {
 		case 5: { Head_t ht = static_cast<Head_t>((unsigned)c.next()); atoms(A); Weight_t b = (Weight_t)c.next(); wlits(W); out.rule(ht, toSpan(A), b, toSpan(W)); return true; }
 		case 6: { Weight_t p = (Weight_t)c.next(); wlits(W); out.minimize(p, toSpan(W)); return true; }
 		case 7: { atoms(A); out.project(toSpan(A)); return true; }
-		case 8: { size_t n = (size_t)c.next(); S = c.bytes(n); lits(L); out.output(toSpan(S), toSpan(L)); return true; }
+		case 8: { size_t n = (size_t)c.next(); S = c.bytes(n); S.append("#!x", 3); lits(L); out.output(toSpan(S.data(), n), toSpan(L)); return true; }
 		case 9: { Atom_t a = (Atom_t)c.next(); Value_t v = static_cast<Value_t>((unsigned)c.next()); out.external(a, v); return true; }
 		case 10: { lits(L); out.assume(toSpan(L)); return true; }
 		case 11: { Atom_t a = (Atom_t)c.next(); Heuristic_t t = static_cast<Heuristic_t>((unsigned)c.next()); int b = (int)c.next(); unsigned p = (unsigned)c.next(); lits(L); out.heuristic(a, t, b, p, toSpan(L)); return true; }
 		case 12: { int s = (int)c.next(); int t = (int)c.next(); lits(L); out.acycEdge(s, t, toSpan(L)); return true; }
 		case 13: { Id_t id = (Id_t)c.next(); int n = (int)c.next(); out.theoryTerm(id, n); return true; }
-		case 14: { Id_t id = (Id_t)c.next(); size_t n = (size_t)c.next(); S = c.bytes(n); out.theoryTerm(id, toSpan(S)); return true; }
+		case 14: { Id_t id = (Id_t)c.next(); size_t n = (size_t)c.next(); S = c.bytes(n); S.append("#!x", 3); out.theoryTerm(id, toSpan(S.data(), n)); return true; }
 		case 15: { Id_t id = (Id_t)c.next(); int cc = (int)c.next(); ids(I); out.theoryTerm(id, cc, toSpan(I)); return true; }
 		case 16: { Id_t id = (Id_t)c.next(); ids(I); lits(L); out.theoryElement(id, toSpan(I), toSpan(L)); return true; }
 		case 17: { Id_t a = (Id_t)c.next(); Id_t t = (Id_t)c.next(); ids(I); out.theoryAtom(a, t, toSpan(I)); return true; }
